@@ -372,7 +372,11 @@ class CBORSerializable:
             elif origin is Union:
                 return any(_check_recursive(value, arg) for arg in type_hint.__args__)
             elif origin is Dict or isinstance(value, (dict, FrozenDict)):
-                key_type, value_type = type_hint.__args__
+                args = getattr(type_hint, "__args__", ())
+                if len(args) != 2:
+                    # unparameterized Dict hint
+                    return isinstance(value, (dict, FrozenDict))
+                key_type, value_type = args
                 return all(
                     _check_recursive(k, key_type) and _check_recursive(v, value_type)
                     for k, v in value.items()
